@@ -278,8 +278,12 @@ func refRemovetags(in string, tags []string) string {
 		}
 		s = string(out)
 	}
-	return strings.TrimSpace(s)
+	return s
 }
+
+// removetagsOK: the statement says which tags go; whether surrounding whitespace of the result is
+// trimmed as well (pongo2 does, Django does not) is not stated
+func removetagsOK(got, ref string) bool { return got == ref || got == strings.TrimSpace(ref) }
 
 func hasCompleteTag(s string) bool {
 	i := strings.IndexByte(s, '<')
@@ -341,7 +345,7 @@ func checkC17(c any, r *Rec) error {
 						lenient = append(lenient, tg)
 					}
 				}
-				if want := refRemovetags(in, lenient); v.String() != want {
+				if want := refRemovetags(in, lenient); !removetagsOK(v.String(), want) {
 					return fmt.Errorf("removetags:%q (not a clean tag list) on %q = %q; only the named tags %v may be removed: %q", cs.Param, in, v.String(), lenient, want)
 				}
 				r.Class("removetags:odd-param-read-leniently")
@@ -353,7 +357,7 @@ func checkC17(c any, r *Rec) error {
 		if ferr != nil {
 			return fmt.Errorf("removetags:%q on %q failed: %v", cs.Param, in, ferr)
 		}
-		if want := refRemovetags(in, tags); v.String() != want {
+		if want := refRemovetags(in, tags); !removetagsOK(v.String(), want) {
 			return fmt.Errorf("removetags:%q on %q = %q, reference %q", cs.Param, in, v.String(), want)
 		}
 	} else if ferr != nil {
